@@ -26,6 +26,7 @@ MODULES = {
             "ctl": {"module": "MC_Midi", "cfg": "Graph_Midi_ctl.cfg"},
         },
     },
+    "lfo": {"trace_spec": "Trace_Lfo", "trace_cfg": "Trace_Lfo.cfg", "graphs": {}},
 }
 
 _MIDI_MC = [
@@ -33,6 +34,7 @@ _MIDI_MC = [
     ("midi-wire", "MC_Midi", "MC_Midi_wire.cfg", QT),
     ("midi-wirepb", "MC_Midi", "MC_Midi_wirepb.cfg", QT),
     ("midi-ctl", "MC_Midi", "MC_Midi_ctl.cfg", QT),
+    ("midi-ctlfull", "MC_Midi", "MC_Midi_ctlfull.cfg", T),
     ("midi-notes4", "MC_Midi", "MC_Midi_notes4.cfg", T),
     ("midi-wide", "MC_Midi", "MC_Midi_wide.cfg", T),
 ]
@@ -65,5 +67,18 @@ PROPS = {
         "traces": [("midi", "ctl", QT), ("midi", "framing", QT)],
     },
 }
+
+_LFO_MC = [("lfo", "MC_Lfo", "MC_Lfo.cfg", QT), ("lfo-8bit", "MC_Lfo", "MC_Lfo_8bit.cfg", T)]
+_LFO_SWEEP = ("lfo", "sweep", T, {"thorough": 16})
+
+PROPS.update({
+    "C10": {
+        "module": "lfo", "mc": _LFO_MC,
+        "traces": [("lfo", "shapes", QT), ("lfo", "freq", QT), _LFO_SWEEP],
+        "rule": "distinct table cells (of 1024) whose phases were read out; thorough: all 2^24 phases",
+    },
+    "C11": {"module": "lfo", "mc": _LFO_MC, "traces": [("lfo", "freq", QT), ("lfo", "shapes", QT)]},
+    "C12": {"module": "lfo", "mc": _LFO_MC, "traces": [("lfo", "shapes", QT), _LFO_SWEEP]},
+})
 
 HOOK_COMMITS = ["36838b7"]
